@@ -85,3 +85,20 @@ Theorem C05_narrow_then_wide_refuted :
     end.
 Proof. exact narrow_then_wide_refuted. Qed.
 Print Assumptions C05_narrow_then_wide_refuted.
+
+(* ---- the aggregation as GENERATED from sizes/sizes.go (record* methods, gen/RecordGen.v), folded over the scan's own
+   event log, is the specification's census saturated once: tie T composed along the whole scan ---- *)
+From GS Require Import SizesBridge RecordBridge RecordFold.
+From GSGen Require Import RecordGen.
+
+Theorem C05_generated_aggregation : forall r enum roots names,
+  wf_b r = true -> contract r (walked roots) enum -> small r ->
+  exists evs, scan r enum roots names = SOk evs /\
+    fold_left gen_step evs (to_hgen hist0) = to_hgen (sat_census (spec_census r (walked roots)) (nrefs_of roots)).
+Proof. exact generated_aggregation_is_census. Qed.
+Print Assumptions C05_generated_aggregation.
+
+(* every size the scan hands to record* has passed through sat32 *)
+Theorem C05_scan_events_small : forall r enum roots nm evs, scan r enum roots nm = SOk evs -> Forall ev_small evs.
+Proof. exact scan_events_small. Qed.
+Print Assumptions C05_scan_events_small.
